@@ -1846,7 +1846,15 @@ func CantAdd(mach am.Api, states am.S, args am.A) bool {
 	args2 := &am.ACheck{
 		CheckDone: make(chan struct{}),
 	}
-	mach.CanAdd(states, am.PassMerge(args, am.Pass(args2)))
+	res := mach.CanAdd(states, am.PassMerge(args, am.Pass(args2)))
+	if res == am.Canceled {
+		select {
+		case <-args2.CheckDone:
+		default:
+			// never processed (disposed, backing off)
+			return true
+		}
+	}
 	<-args2.CheckDone
 
 	return !args2.Canceled
@@ -1862,7 +1870,15 @@ func CantRemove(mach am.Api, states am.S, args am.A) bool {
 	args2 := &am.ACheck{
 		CheckDone: make(chan struct{}),
 	}
-	mach.CanRemove(states, am.PassMerge(args, am.Pass(args2)))
+	res := mach.CanRemove(states, am.PassMerge(args, am.Pass(args2)))
+	if res == am.Canceled {
+		select {
+		case <-args2.CheckDone:
+		default:
+			// never processed (disposed, backing off)
+			return true
+		}
+	}
 	<-args2.CheckDone
 
 	return !args2.Canceled
